@@ -32,9 +32,13 @@ ASSUMPTIONS = ["Python's integers and pow(x, e, p) are the reference for Z/pZ",
                "compared in the recoverable-report build asan256r; verdicts about memory/UB come from the gate builds"]
 
 
+SWEEP = ("asan224", "asan384", "asan521", "asan377", "asan382", "asan446")
+
+
 def parts(tier):
     q = tier == "quick"
-    return [dict(part="main", cfg="asan256", shards=6 if q else 8),
+    sweep = [] if q else [dict(part="main", cfg=c, shards=2) for c in SWEEP]
+    return sweep + [dict(part="main", cfg="asan256", shards=6 if q else 8),
             dict(part="main", cfg="asan256k", shards=3 if q else 6),
             dict(part="main", cfg="asan255", shards=3 if q else 4),
             dict(part="main", cfg="asan381", shards=2 if q else 4),
@@ -934,8 +938,10 @@ class Field(object):
                 self.conv(v)
             i += 1
         # normalisation of non-reduced images
+        # fp_norm reduces by repeated subtraction: its domain is an image a few multiples of p above the range
+        # (a 224-bit field stored in 256 bits would need 2^32 subtractions for 2^256 - 1), so stay below 4p
         for raw in (0, 1, p - 1, p, p + 1, 2 * p - 1, 2 * p, 2 * p + 1, self.Rr - 1, self.Rr - 2, 3 * p, 4 * p - 1):
-            if raw < self.Rr:
+            if raw < min(self.Rr, 4 * p):
                 if ctx.mine(i):
                     self.norm(raw)
                 i += 1
@@ -995,7 +1001,7 @@ class Field(object):
             elif kind == "norm":
                 raw = rng.choice([ra, ra + self.p, self.p + rng.randrange(3), self.Rr - 1 - rng.getrandbits(8),
                                   rng.getrandbits(self.W)])
-                self.norm(raw % self.Rr)
+                self.norm(raw % min(self.Rr, 4 * self.p))
             elif kind == "shift":
                 self.shifts(ra, rng.choice([0, 1, 63, 64, 65, rng.randrange(self.W)]))
             elif kind == "inv":
